@@ -2,7 +2,7 @@
    Only statements; every proof is `exact <lemma>`.  (Record-level codec
    theorems over the regenerated layouts are in Props/C01Records.v.) *)
 From Coq Require Import List Bool NArith.
-From ACH Require Import Bytes Utf8 Framing FramingFacts FileStruct FileStructFacts C01Frame.
+From ACH Require Import Bytes Utf8 Utf8Enc Framing FramingFacts FramingBytes FileStruct FileStructFacts C01Frame.
 Open Scope list_scope.
 
 (* every physical layout of the same records — LF, CR LF, CR, one unbroken
@@ -38,6 +38,17 @@ Theorem C01_trimmed_padded_ascii : forall s k,
   norm_line (firstn (94 - k) s) = NLine s.
 Proof. exact norm_line_trimmed. Qed.
 Print Assumptions C01_trimmed_padded_ascii.
+
+(* the same for records of any characters (multi-byte included): padding counts characters *)
+Theorem C01_trimmed_padded : forall p k, rune_count (p ++ repeat sp k) = 94%nat -> (0 < k)%nat ->
+  norm_line p = NLine (p ++ repeat sp k).
+Proof. exact norm_line_trimmed_utf8. Qed.
+Print Assumptions C01_trimmed_padded.
+
+(* the characters the scanner yields for a concatenation of well-formed records *)
+Theorem C01_chars_concat : forall a b, wf_utf8 a = true -> chars (a ++ b) = chars a ++ chars b.
+Proof. exact chars_app_wf. Qed.
+Print Assumptions C01_chars_concat.
 
 (* the reader's record dispatch inverts the writer's record order; all-9 filler
    records may be missing or in excess (any k) *)
